@@ -62,9 +62,15 @@ struct Ledger {
     uint64_t failmask = 0;           // bit i set: the i-th allocation fails
     bool double_free = false;
     BlockAllocator ba;
+    // Both allocator flavours the library knows: generic (the block size is passed with every request) and slab (fixed-size blocks, no size
+    // argument). Which one a session uses follows from the parity of its block size, so that every harness exercises both without a
+    // further case parameter and a serialised case replays with the same flavour.
     explicit Ledger(size_t bs) : blocksize(bs) {
-        ba.type = UFW_ALLOC_GENERIC; ba.blocksize = bs; ba.driver = this; ba.alloc.generic = &Ledger::alloc_cb; ba.free = &Ledger::free_cb;
+        ba.blocksize = bs; ba.driver = this; ba.free = &Ledger::free_cb;
+        if (bs & 1) { ba.type = UFW_ALLOC_SLAB; ba.alloc.slab = &Ledger::slab_cb; }
+        else { ba.type = UFW_ALLOC_GENERIC; ba.alloc.generic = &Ledger::alloc_cb; }
     }
+    static int slab_cb(void *d, void **m) { return alloc_cb(d, m, ((Ledger *)d)->blocksize); }
     Ledger(const Ledger &) = delete;
     ~Ledger() { for (void *p : live) free(p); }
     static int alloc_cb(void *d, void **m, size_t n) {
